@@ -133,19 +133,25 @@ def check_subsample(acc, inner, pname, mc, tier):
             n_cols = n if mode != "rows" else len(cset)
             ncand = len(cset)
             doc_size = min(mc, ncand) if isinstance(mc, int) else min(ncand, math.ceil(ncand * mc))
-            for excl in (False, True):
-                for bs in (1, 2):
-                    key = ("subsample", inner.name, pname, lab, mode, mc, excl, bs)
+            for excl, bs, ml in ((False, 1, NAN), (False, 2, NAN), (True, 1, NAN), (True, 2, NAN), (False, 1, -1.0), (True, 1, -1.0)):
+                if ml == ml and inner.task != "clf":
+                    continue  # the reserved-number sentinel is exercised with class labels only
+                for _once in (0,):
+                    y = SP.make_y(lab, inner.task)
+                    if ml == ml:
+                        y = np.where(np.isnan(y), ml, y)  # same labeling, missing labels encoded by the reserved number -1
+                    key = ("subsample", inner.name, pname, lab, mode, mc, excl, bs, repr(ml))
                     acc.case(key)
-                    wit = {"wrapper": "SubSamplingWrapper(max_candidates=%r, exclude_non_subsample=%r)" % (mc, excl), "inner": inner.name, "X": X.tolist(),
+                    wit = {"wrapper": "SubSamplingWrapper(max_candidates=%r, exclude_non_subsample=%r, missing_label=%r)" % (mc, excl, ml), "inner": inner.name, "X": X.tolist(),
                            "labels": list(lab), "cand_mode": mode, "batch_size": bs}
                     rep = {"what": "subsample", "inner": inner.name, "pool": pname, "mc": mc}
                     size = sum(v is not None for v in lab) * 10 + bs + (5 if excl else 0)
                     preds = {"exclude": excl, "mode": mode, "cold_start": len(lbl) == 0, "bs_gt_subset": bs > doc_size}
 
                     def run(tp):
-                        w = P.SubSamplingWrapper(query_strategy=inner.make(0), max_candidates=mc, exclude_non_subsample=excl, random_state=0)
-                        return _run(w, X, y, cand, bs, tp, inner.query_kwargs(X))
+                        w = P.SubSamplingWrapper(query_strategy=inner.make(0, ml), max_candidates=mc, exclude_non_subsample=excl, random_state=0,
+                                                 missing_label=ml)
+                        return _run(w, X, y, cand, bs, tp, inner.query_kwargs(X, ml))
 
                     seen_subsets = set()
                     for tp, o in T.explore(run, bound=3, max_runs=120):
@@ -177,15 +183,15 @@ def check_subsample(acc, inner, pname, mc, tier):
                         if mode == "rows":
                             refc, back = X[PR.unlabeled(lab)][S] if False else np.asarray(cand)[S], None
                             Xr, yr = (X, y) if not excl else (X[lbl], y[lbl])
-                            r = _run(inner.make(0), Xr, yr, refc, 1, T.Tape(), inner.query_kwargs(Xr)) if len(Xr) else ("exc", "empty", "")
+                            r = _run(inner.make(0, ml), Xr, yr, refc, 1, T.Tape(), inner.query_kwargs(Xr, ml)) if len(Xr) else ("exc", "empty", "")
                             ref_vals = None if r[0] != "ok" else r[2][0]
                         elif not excl:
-                            r = _run(inner.make(0), X, y, S, 1, T.Tape(), inner.query_kwargs(X))
+                            r = _run(inner.make(0, ml), X, y, S, 1, T.Tape(), inner.query_kwargs(X, ml))
                             ref_vals = None if r[0] != "ok" else r[2][0][S]
                         else:
                             keep = sorted(set(lbl) | set(S))
                             Xr, yr = X[keep], y[keep]
-                            r = _run(inner.make(0), Xr, yr, None, 1, T.Tape(), inner.query_kwargs(Xr))
+                            r = _run(inner.make(0, ml), Xr, yr, None, 1, T.Tape(), inner.query_kwargs(Xr, ml))
                             ref_vals = None if r[0] != "ok" else r[2][0][[keep.index(s) for s in S]]
                         acc.transitions += 1
                         if ref_vals is not None:
